@@ -14,6 +14,7 @@
 #include <netinet/in.h>
 #include <sys/socket.h>
 #include <netdb.h>
+#include <unistd.h>
 #include <stdarg.h>
 
 extern void (*ares_verif_clock_cb)(ares_timeval_t *now);
@@ -34,6 +35,55 @@ static void   ev(const char *fmt, ...)
   va_start(ap, fmt);
   evlen += (size_t)vsnprintf(evbuf + evlen, sizeof(evbuf) - evlen, fmt, ap);
   va_end(ap);
+}
+
+/* ------------------------------------------------------------------ allocator with ledger and scripted failure (C14) */
+static long alloc_live  = 0; /* live allocations (ledger) */
+static long alloc_base  = 0; /* ledger value at the start of the case */
+static long alloc_seq   = 0; /* allocations made while armed, since the start of the case */
+static long alloc_fail  = -1; /* index (in alloc_seq) of the allocation that fails; -1 = none */
+static int  alloc_armed = 0;
+static int  alloc_fired = 0;
+static const char *cur_op = "-";
+static void        ev(const char *fmt, ...);
+static void       *a_malloc(size_t n)
+{
+  void *p;
+  if (alloc_armed) {
+    if (alloc_seq++ == alloc_fail) {
+      alloc_fired++;
+      ev("allocfired(%s)", cur_op);
+      return NULL;
+    }
+  }
+  p = malloc(n ? n : 1);
+  if (p) {
+    __atomic_add_fetch(&alloc_live, 1, __ATOMIC_SEQ_CST);
+  }
+  return p;
+}
+static void a_free(void *p)
+{
+  if (p) {
+    __atomic_sub_fetch(&alloc_live, 1, __ATOMIC_SEQ_CST);
+  }
+  free(p);
+}
+static void *a_realloc(void *p, size_t n)
+{
+  void *q;
+  if (alloc_armed) {
+    if (alloc_seq++ == alloc_fail) {
+      alloc_fired++;
+      ev("allocfired(%s)", cur_op);
+      return NULL;
+    }
+  }
+  q = realloc(p, n ? n : 1);
+  if (q && p == NULL) {
+    __atomic_add_fetch(&alloc_live, 1, __ATOMIC_SEQ_CST);
+  }
+  return q;
 }
 
 /* ------------------------------------------------------------------ clock / rng */
@@ -752,14 +802,18 @@ static void do_req(int tok, const char *kind, const char *name, int type, int cl
     hints.ai_family = fam;
     hints.ai_flags  = ARES_AI_NOSORT | ARES_AI_CANONNAME;
     ares_getaddrinfo(chan, name, "53", &hints, cb_addrinfo, r);
+    ev("ret(%d,ok)", tok);
   } else if (!strcmp(kind, "ghbn")) {
     ares_gethostbyname(chan, name, fam, cb_host, r);
+    ev("ret(%d,ok)", tok);
   } else if (!strcmp(kind, "ghba")) {
     unsigned char a[16];
     if (inet_pton(AF_INET, name, a) == 1) {
       ares_gethostbyaddr(chan, a, 4, AF_INET, cb_host, r);
+      ev("ret(%d,ok)", tok);
     } else if (inet_pton(AF_INET6, name, a) == 1) {
       ares_gethostbyaddr(chan, a, 16, AF_INET6, cb_host, r);
+      ev("ret(%d,ok)", tok);
     } else {
       ev("req-build-failed(%d,addr)", tok);
     }
@@ -770,6 +824,7 @@ static void do_req(int tok, const char *kind, const char *name, int type, int cl
     sa.sin_port   = htons(53);
     inet_pton(AF_INET, name, &sa.sin_addr);
     ares_getnameinfo(chan, (struct sockaddr *)&sa, sizeof(sa), ARES_NI_LOOKUPHOST | ARES_NI_NAMEREQD, cb_nameinfo, r);
+    ev("ret(%d,ok)", tok);
   } else {
     ev("bad-kind");
   }
@@ -835,6 +890,7 @@ static void teardown(void)
 
 static void tail(void)
 {
+  alloc_armed = 0;
   /* status tail: timeout hint, active queries, interest set */
   if (chan && !destroyed) {
     struct timeval  tv, *tvp;
@@ -1055,7 +1111,15 @@ static unsigned char *build_reply(int k, int nt, char **t, size_t *outlen)
       }
     }
   }
-  ares_dns_write(r, &out, outlen);
+  {
+    /* hand out a plain malloc copy: the queue frees with free() and the ledger counts library memory only */
+    unsigned char *tmp = NULL;
+    if (ares_dns_write(r, &tmp, outlen) == ARES_SUCCESS && tmp != NULL) {
+      out = malloc(*outlen ? *outlen : 1);
+      memcpy(out, tmp, *outlen);
+      ares_free(tmp);
+    }
+  }
 done:
   ares_dns_record_destroy(q);
   ares_dns_record_destroy(r);
@@ -1138,7 +1202,7 @@ int main(void)
   unsetenv("HOSTALIASES");
   ares_verif_clock_cb = vclock;
   ares_verif_rand_cb  = vrand;
-  ares_library_init(ARES_LIB_INIT_ALL);
+  ares_library_init_mem(ARES_LIB_INIT_ALL, a_malloc, a_free, a_realloc);
   while ((nt = h_next(t)) >= 0) {
     const char *op;
     if (nt == 0) {
@@ -1148,6 +1212,10 @@ int main(void)
     op = t[0];
     if (!strcmp(op, "case")) {
       teardown();
+      alloc_seq   = 0;
+      alloc_fail  = -1;
+      alloc_fired = 0;
+      alloc_base  = alloc_live;
       rng_state = 88172645463325252ULL ^ (unsigned long long)(nt > 1 ? atol(t[1]) * 2654435761UL : 0);
       printf("case %s\n", nt > 1 ? t[1] : "0");
       fflush(stdout);
@@ -1155,6 +1223,15 @@ int main(void)
     }
     if (op[0] == '#') {
       puts(op);
+      continue;
+    }
+    if (!strcmp(op, "allocfail")) {
+      alloc_fail = argi(nt, t, "at", -1);
+      puts("ok");
+      continue;
+    }
+    if (!strcmp(op, "alloccount")) {
+      printf("allocs=%ld fired=%d\n", alloc_seq, alloc_fired);
       continue;
     }
     if (!strcmp(op, "chan")) {
@@ -1212,7 +1289,9 @@ int main(void)
       o.server_failover_opts.retry_chance = (unsigned short)argi(nt, t, "retrychance", 0);
       o.server_failover_opts.retry_delay  = (size_t)argi(nt, t, "retrydelay", 5000);
       mask |= ARES_OPT_SERVER_FAILOVER;
+      alloc_armed = (int)argi(nt, t, "armed", 0);
       st = (ares_status_t)ares_init_options(&chan, &o, mask);
+      alloc_armed = 0;
       if (st != ARES_SUCCESS) {
         chan = NULL;
         printf("err:%s\n", stname((int)st));
@@ -1224,9 +1303,16 @@ int main(void)
       if (argi(nt, t, "pendingwrite", 0)) {
         ares_set_pending_write_cb(chan, pending_write_cb, NULL);
       }
+      alloc_armed = (int)argi(nt, t, "armed", 0);
       st = (ares_status_t)ares_set_servers_ports_csv(chan, arg(nt, t, "servers", "10.0.0.1"));
+      alloc_armed = 0;
       evlen = 0;
-      printf("%s\n", st == ARES_SUCCESS ? "ok" : "err:servers");
+      if (st != ARES_SUCCESS) {
+        /* a channel without servers is still a valid channel; report and go on */
+        printf("err:servers\n");
+        continue;
+      }
+      printf("ok\n");
       continue;
     }
     if (chan == NULL) {
@@ -1251,6 +1337,10 @@ int main(void)
       puts("destroyed");
       continue;
     }
+    /* the failing allocator is armed only while the library API under test runs, not while the virtual
+     * server builds its replies with the same record API */
+    alloc_armed = (strcmp(op, "reply") != 0 && strcmp(op, "raw") != 0);
+    cur_op      = op;
     if (!strcmp(op, "req")) {
       do_req((int)argi(nt, t, "tok", 0), arg(nt, t, "kind", "send"), arg(nt, t, "name", "www.example.com"),
              (int)argi(nt, t, "type", 1), (int)argi(nt, t, "class", 1), (int)argi(nt, t, "edns", 0),
@@ -1377,6 +1467,16 @@ int main(void)
           ev("MON:socket-survives-destroy(%d)", open);
         }
       }
+      {
+        /* ledger: everything the channel allocated is released; the harness's own records of past
+         * transmissions are plain malloc and not counted */
+        int  i;
+        long mine = 0;
+        (void)i;
+        if (alloc_live - mine != alloc_base) {
+          ev("MON:leak(%ld)", alloc_live - alloc_base);
+        }
+      }
       puts(evlen ? evbuf : "-");
       evlen = 0;
       continue;
@@ -1385,6 +1485,20 @@ int main(void)
       ev("ret(%s)", stname(st));
     } else if (!strcmp(op, "reinit")) {
       ev("ret(%s)", stname((int)ares_reinit(chan)));
+      {
+        /* the reload runs on its own thread: wait for it so the scenario stays deterministic */
+        int spins = 0;
+        for (;;) {
+          ares_bool_t pending;
+          ares_channel_lock(chan);
+          pending = chan->reinit_pending;
+          ares_channel_unlock(chan);
+          if (!pending || ++spins > 20000) {
+            break;
+          }
+          usleep(100);
+        }
+      }
     } else if (!strcmp(op, "sockfail")) {
       if (nfaults < 32) {
         strncpy(faults[nfaults].name, arg(nt, t, "call", "sendto"), 15);
